@@ -445,6 +445,17 @@ def run(chk):
     r3 = chk.rule("R10.3", "sink classification: the published criteria reach `disqualification`; extreme values / UTC index / off-cycle reads / unverifiable or sparse high-frequency data / inferior model reach `warnings`", 20)
     r4 = chk.rule("R10.4", "plumbing: (disqualification, warnings) tuple order, += into the same-named lists, criteria objects built with only {data, is_electricity_data, is_reporting_data}; reporting classes set is_reporting_data=True", 12)
 
+    # the frame whose days the criteria count: one row per calendar day of the span (shared with C05 / C09, rules/daycompletion.py)
+    from rules import daycompletion
+    r5 = chk.rule("R10.5", "the daily frame the criteria count days on has exactly one row per calendar day: days already present are matched on year, month and day (same key on both sides) when the missing days are put back", 1)
+    dfi = chk.repo.func("opendsm.eemeter.models.daily.data", "_DailyData._compute_meter_value_df")
+    dbad, dn = daycompletion.judge(chk)
+    for k_, msg in dbad:
+        r5.require(False, f"{dfi.key}|{k_}", dfi.where(), "_compute_meter_value_df: " + msg)
+    if dn < 1:
+        raise AnalysisError(f"{dfi.key}: no interpreted path completes the calendar (anchor changed)")
+    r5.inst(f"{dfi.key}|paths[{dn}]", {"paths_completing_the_calendar": dn})
+
     sites = _collect_sites(chk)
     live_methods: Set[str] = set()
     scm = chk.repo.module(SC)
